@@ -108,6 +108,11 @@ func init() {
 		in.assume(in.tc.And(in.tc.Cmp(OpSLe, lo, x), in.tc.Cmp(OpSLe, x, hi)))
 		return x
 	}
+	h["ndDuration"] = func(in *Interp, fr *frame, a []Value) Value {
+		x := in.fresh(a[0].(string), 64)
+		in.assume(in.tc.And(in.tc.Cmp(OpSLe, in.k64(0), x), in.tc.Cmp(OpSLe, x, in.k64(1<<55))))
+		return x
+	}
 	h["ndBytes"] = func(in *Interp, fr *frame, a []Value) Value {
 		n := int(in.concretize(a[1].(*Term), "ndBytes size"))
 		arr := make([]Value, n)
